@@ -43,6 +43,16 @@ Definition lit_of (t : ty) : expr :=
   | TStr => ELit (LStr "s"%string)
   | TList b => EListLit b []
   | TBox d n => EPrim (PBox d n) [ELit (LNum n 7)]
+  | TArr b => EArrLit b []
+  | TFun _ _ | TBad => ELit (LBool true)    (* never asked for: all_tys holds base types only *)
+  | TUni fs => EUni fs 0 (match fs with
+                          | BInt :: _ => ELit (LNum NInt 7) | BBool :: _ => ELit (LBool true)
+                          | BStr :: _ => ELit (LStr "s"%string) | _ => ELit (LNum NMI 7)
+                          end)
+  | TRec fs => ERec fs (map (fun b => match b with
+                                      | BMI => ELit (LNum NMI 7) | BInt => ELit (LNum NInt 7)
+                                      | BBool => ELit (LBool true) | BStr => ELit (LStr "s"%string)
+                                      end) fs)
   end.
 Definition all_tys : list ty := [TMI; TInt; TBool; TStr].
 Definition typed_lits : list expr := map lit_of all_tys.
@@ -104,11 +114,23 @@ Fixpoint mu_e (k : kind) (F : list fundef) (e : expr) {struct e} : list expr :=
   | ESeq ss e' => map (fun ss' => ESeq ss' e') (shrink_one (mu_s k F) ss) ++ map (fun x => ESeq ss x) (mu_e k F e')
   | EMac m e' => map (EMac m) (mu_e k F e')
   | EListLit b es => map (EListLit b) (shrink_one (mu_e k F) es)
+  | ERec fs es => map (ERec fs) (shrink_one (mu_e k F) es)
+  | EArrLit b es => map (EArrLit b) (shrink_one (mu_e k F) es)
+  | EField i e' => map (EField i) (mu_e k F e')
+  | EClo n ps r es => map (EClo n ps r) (shrink_one (mu_e k F) es)
+  | EApp fn es => map (fun x => EApp x es) (mu_e k F fn) ++ map (EApp fn) (shrink_one (mu_e k F) es)
+  | EUni fs i e' => map (EUni fs i) (mu_e k F e')
+  | ECase i e' => map (ECase i) (mu_e k F e')
+  | EUGet i e' => map (EUGet i) (mu_e k F e')
   end
 with mu_s (k : kind) (F : list fundef) (s : stmt) {struct s} : list stmt :=
   match s with
   | SAssG g e => map (SAssG g) (mu_e k F e)   (* `g9999 := e` would DECLARE g9999 (langenvs.tex:323-326) *)
   | SAssL l e => map (SAssL l) (mu_e k F e)
+  | SSetG g i e => map (SSetG g i) (mu_e k F e)
+  | SSetL l i e => map (SSetL l i) (mu_e k F e)
+  | SSetIG g i e => map (fun x => SSetIG g x e) (mu_e k F i) ++ map (SSetIG g i) (mu_e k F e)
+  | SSetIL l i e => map (fun x => SSetIL l x e) (mu_e k F i) ++ map (SSetIL l i) (mu_e k F e)
   | SPrint es => map SPrint (shrink_one (mu_e k F) es)
   | SIf c a b =>
       map (fun c' => SIf c' a b) (mu_e k F c)
@@ -189,7 +211,7 @@ Fixpoint ambig_items (i : nat) (p : prog) : list (nat * prog) :=
           (* only when the original result type has `<<` too: a Box value is not printable, so
              `stdout << f(..)` would single out the String twin and be legal Aldor            *)
           match fd_ret fd with
-          | TBox _ _ => []
+          | TBox _ _ | TRec _ | TUni _ | TFun _ _ | TBad => []
           | _ => [(S i, it :: IFun (twin fd) :: r
                         ++ [IStmt (SPrint [ECall (fd_name fd) (map lit_of (fd_params fd))])])]
           end
@@ -240,14 +262,18 @@ Definition lax_fun_ctx (G : list (ty * bool)) (F : list fundef) (fd : fundef) : 
 Definition check_fun_lax (G : list (ty * bool)) (F : list fundef) (fd : fundef) : bool :=
   match check_locals (lax_fun_ctx G F fd) (fd_locals fd) with
   | Some cx => (check_block (with_seq cx (Some (fd_ret fd))) (fd_body fd)
-                && opt_ty_eqb (infer cx (fd_result fd)) (fd_ret fd))%bool
+                && opt_ty_eqb (infer cx (fd_result fd)) (fd_ret fd)
+                && store_ok (fd_ret fd) (fd_result fd))%bool
   | None => false
   end.
 Fixpoint check_items_lax (G : list (ty * bool)) (F : list fundef) (p : prog) : bool :=
   match p with
   | [] => true
-  | IConst t e :: r | IVar t e :: r =>
-      (opt_ty_eqb (infer (lax_top G F) e) t && check_items_lax G F r)%bool
+  | IConst t e :: r =>
+      (opt_ty_eqb (infer (lax_top G F) e) t && (negb (is_rec t) || sharable (lax_top G F) e)
+       && check_items_lax G F r)%bool
+  | IVar t e :: r =>
+      (opt_ty_eqb (infer (lax_top G F) e) t && store_ok t e && check_items_lax G F r)%bool
   | IFun fd :: r => (check_fun_lax G F fd && check_items_lax G F r)%bool
   | IStmt s :: r => (negb (is_exit s) && check_stmt (lax_top G F) s && check_items_lax G F r)%bool
   end.
